@@ -219,15 +219,16 @@ pub struct C12Out {
 }
 
 /// `stream` must be normalised. `replay`: events handled again after run-Finished.
-pub fn check(stream: &[Ev], replay: &[Ev], own_steps_of: &dyn Fn(usize) -> usize, with_repeat: bool) -> C12Out {
+pub fn check(stream: &[Ev], replay: &[Ev], own_steps_of: &dyn Fn(usize) -> usize, with_repeat: u8) -> C12Out {
     let mut viol = vec![];
     let keys: Vec<Key> = stream.iter().map(decode).collect();
     let c = recount(&keys, own_steps_of);
     let rec = Rec::default();
 
     // run
-    let (st, sc, pe, he, failed) = if with_repeat {
-        let mut w = writer::Repeat::<W, _>::failed(writer::Summarize::new(rec.clone()));
+    let (st, sc, pe, he, failed) = if with_repeat > 0 {
+        let inner = writer::Summarize::new(rec.clone());
+        let mut w = if with_repeat == 1 { writer::Repeat::<W, _>::failed(inner) } else { writer::Repeat::<W, _>::skipped(inner) };
         for e in stream {
             block_on(w.handle_event(e.clone(), &cli::Empty));
         }
